@@ -380,7 +380,7 @@ class ContReplay:
             self.nstep += 1
             k = (op, e["class"] if op in ("select", "set_file") else "after_%d_selections" % len(rets) if op.startswith("set_") else "")
             self.count[k] = self.count.get(k, 0) + 1
-        info = self.describe(hist, n + 1) if verify else None
+        info = self.describe(hist, n) if verify else None
         want = cont_canon(st["cont"])
         before = cont_canon(prev["cont"])
         if op == "select":
@@ -605,7 +605,7 @@ class ContReplay:
                     return done
                 a = t["hist"][-1]["arg"]
                 # load, then select
-                r2, ex2, site2 = call(wl.select_bands, **kwargs_of(a, False))
+                r2, ex2, site2 = call(wl.select_bands, **kwargs_of(a, True))
                 # select, then save and load
                 r1, ex1, site1 = call(w.select_bands, **kwargs_of(a, True))
                 if (ex1 is None) != (ex2 is None):
@@ -1159,10 +1159,9 @@ def _check(rep, pid, tier):
         s = states[k]
         succ = {}
         for aid in COMMUTE:
-            for again in (False, True):
-                k2 = k + (("select", aid, "", again),)
-                if k2 in states and aid not in succ:
-                    succ[aid] = states[k2]
+            k2 = k + (("select", aid, "", bool(s["cont"]["selected"])),)
+            if k2 in states:
+                succ[aid] = states[k2]
         files = cont_canon(s["cont"])
         if not succ or "eig" not in files or not cr.memo.get(k) or any(v["dim"].get("NB") == 0 for v in files.values()):
             continue
